@@ -25,6 +25,9 @@ try:
     # carry uncommitted state of /repo? no: mutants are relative to HEAD
     r = subprocess.run(['git', '-C', scratch, 'apply', patch], capture_output=True, text=True)
     if r.returncode != 0:
+        # the tree moved on since the patch was taken (later fix: commits): fall back to a three-way merge
+        r = subprocess.run(['git', '-C', scratch, 'apply', '-3', patch], capture_output=True, text=True)
+    if r.returncode != 0:
         print('PATCH-DOES-NOT-APPLY', r.stderr.strip()[:300])
         sys.exit(3)
     tests = 'skipped'
